@@ -109,6 +109,21 @@ CHECKS['C05'] = dict(
          'Parameter matching inherits C16 (float-array tolerance).',
     ref='§5 C05')
 
+CHECKS['C06'] = dict(
+    technique='Lean 4 theorem (exhaustive case analysis over a structural descriptor) + differential correspondence on corrupted HDF5 trees',
+    text=('Theorem total_and_exact (Usid/Properties/C06.lean): for EVERY structural descriptor of an HDF5 object (any kind and '
+          'rank, quantity/units absent / string / not a string, each of the four links absent / not a reference / '
+          'dangling / to a group / to a dataset of any shape with or without labels and units) the statement-by-statement '
+          'model of check_if_main returns True exactly when the independently written rule set MainRules holds, and it is '
+          'a total boolean function (never raises); the wrapper gate (TypeError otherwise) and the exactness of '
+          'get_all_main over any tree follow. Correspondence: trees of generator datasets with every single structural '
+          'corruption and pairs, built with raw h5py; the descriptor fed to the model is re-read from the file with raw '
+          'h5py; check_if_main, USIDataset() and get_all_main() are compared with the model and with an independent '
+          'Python statement of the rules.'),
+    note=COMMON_NOTE + 'The descriptor abstracts dataset contents and dtypes (not examined by check_if_main); scalar-string '
+         'labels and string-valued link attributes that happen to be valid paths are outside the generated domain.',
+    ref='§5 C06')
+
 REASON_PENDING = 'check not built yet in this round (planned: Lean model + theorems + correspondence, see DESIGN.md §5)'
 
 
